@@ -502,12 +502,14 @@ def oracle_distmat(case):
     for i, p in enumerate(a):
         for j, q in enumerate(b):
             w = fsqrt(fdot(fsub(p, q), fsub(p, q)))
-            if abs(float(out[1][i][j]) - w) > TOL * (1 + w):
+            # relative (1e-9) plus the binary64 resolution of the coordinates (|x| <= 10: a few 1e-15): a distance of 1e-9 returned
+            # as 0, or taken to the wrong point of a nearly identical set, is a difference
+            if abs(float(out[1][i][j]) - w) > TOL * w + 1e-13:
                 fails.append({"what": "distance_matrix entry differs from |a_i - b_j|", "observed": [i, j, float(out[1][i][j]), w]})
                 return fails, obs
     if len(a) == len(b):
         d = cd(to_np(a), to_np(b))
-        if not np.allclose(np.diag(out[1]), d, rtol=1e-12, atol=1e-12):
+        if not np.allclose(np.diag(out[1]), d, rtol=1e-9, atol=1e-300):
             fails.append({"what": "diagonal of distance_matrix differs from compute_distance", "observed": [np.diag(out[1]).tolist(), d.tolist()]})
     return fails, obs
 
@@ -848,6 +850,35 @@ def gen_cases(ctx):
         a = [rnd_point(rng) for _ in range(rng.randint(1, 5))]
         b = [rnd_point(rng) for _ in range(len(a) if rng.random() < 0.5 else rng.randint(1, 5))]
         cases.append({"kind": "distmat", "stream": "distmat", "a": pts_json(a), "b": pts_json(b)})
+    # two point sets of the same shape that are (nearly) the same: b = a, b = a moved by tiny amounts over many decades (dyadic
+    # coordinates and dyadic displacements 2^-10 .. 2^-40, i.e. 1e-3 .. 1e-12, exact in binary64 and in the model), b = a permuted,
+    # b = a with one row replaced; a fast path that takes b for a shows here
+    def dy_point():
+        return tuple(Fr(rng.randint(-160, 160), rng.choice([1, 2, 4, 8, 16])) for _ in range(3))
+    for _ in range(400 if T else 60):
+        na = rng.randint(1, 6)
+        a = []
+        while len(a) < na:
+            p = dy_point()
+            if p not in a:
+                a.append(p)
+        mode = rng.choice(["same", "near", "near", "near", "near-one", "perm", "one-row"])
+        if mode == "same":
+            b = list(a)
+        elif mode == "near":
+            k = rng.randint(10, 40)
+            b = [tuple(c + rng.choice([-1, 0, 1, 1]) * Fr(1, 2 ** rng.randint(k, min(40, k + 3))) for c in p) for p in a]
+        elif mode == "near-one":
+            b = list(a)
+            r = rng.randrange(na)
+            b[r] = tuple(c + Fr(rng.choice([-1, 1]), 2 ** rng.randint(10, 40)) for c in a[r])
+        elif mode == "perm":
+            b = list(a)
+            rng.shuffle(b)
+        else:
+            b = list(a)
+            b[rng.randrange(na)] = dy_point()
+        cases.append({"kind": "distmat", "stream": "distmat-near-copy", "a": pts_json(a), "b": pts_json(b), "mode": mode})
     # connectivity
     for _ in range(8000 if T else 450):
         n = rng.randint(1, 15)
@@ -898,7 +929,7 @@ def correspond(ctx):
                  "between consecutive bonds) x rational rigid motions / reflections from integer quaternions x 1-D / (1,3) / (n,3) "
                  "shapes x degrees flag; straight / folded-back / nearly collinear triples on lattice and random directions (scalar, batched, and "
                  "as linear molecules through measure_coordinates / Molecule.measure); measure index lists incl. negative, out-of-range and wrong-length; molecules of 1-15 atoms "
-                 "x thresholds for connectivity (keywords given or left to their defaults; the same measurement list on several coordinate sets back to back; pairs exactly at / one binary64 step inside the bond threshold). A case is non-trivial if the implementation returned a value (not an exception) "
+                 "x thresholds for connectivity (keywords given or left to their defaults; the same measurement list on several coordinate sets back to back; distance_matrix also on nearly identical / identical / permuted point sets (dyadic displacements 1e-12..1e-3); pairs exactly at / one binary64 step inside the bond threshold). A case is non-trivial if the implementation returned a value (not an exception) "
                  "and the point set is non-degenerate; distinct = distinct inputs")
     cases = gen_cases(ctx)
     buckets = {k: [] for k in CHK_TY}
@@ -914,6 +945,8 @@ def correspond(ctx):
             corr.hit("keyword_defaults_exercised")
         if case.get("boundary"):
             corr.hit("conn_boundary_" + case["boundary"])
+        if case.get("mode"):
+            corr.hit("distmat_b_" + case["mode"])
         if case["kind"] == "conn":
             if obs.get("skip"):
                 corr.hit("conn_skipped_near_threshold")
